@@ -192,6 +192,8 @@ def run_property(pid, tier, seed, only=None):
         extra, thorough_lines = TH.run(pid)
         ev["coverage"]["thorough"] = extra
         native_viol = [x for x in extra["native_cross_checks"] if x["confirmed_violation"]]
+        if any(l["verdict"] != "proved" for l in extra.get("lean_lemmas", [])):
+            undecided.append(C.Result(pid + "/lean_lemma", "lean", "-", "lean_lemma", "lemma"))
     os.makedirs(os.path.join(ROOT, "evidence"), exist_ok=True)
     if not only:
         with open(os.path.join(ROOT, "evidence", pid + ".json"), "w") as f:
